@@ -157,6 +157,7 @@ Hypothesis Hperm : Permutation (dch ++ cch) (choices m).
 Hypothesis Hnd : NoDup (map fst (choices m)).
 Hypothesis Hnds : NoDup (map fst sts).
 Hypothesis Hvalid : grids_valid sts.
+Hypothesis Hnames : NoDup (map fst (dst ++ dch ++ cst ++ cch)).
 (* the model evaluates at every grid point of every period *)
 Hypothesis Heval : forall t, S t < n -> forall ds dc cs cc,
   in_bounds (sizes dst) ds -> in_bounds (sizes dch) dc -> in_bounds (sizes cst) cs -> in_bounds (sizes cch) cc ->
@@ -188,7 +189,7 @@ Proof.
     assert (E : S t = n) by lia.
     destruct (parts_in_bounds sts idx Hb) as [Hds Hcs].
     rewrite (spec_entry t idx Ht Hb), vred_veq.
-    pose proof (code_solve_satisfies_the_bellman_equation m p n dch cch Hperm Hnd Hnds Hvalid t (dpart sts idx) (cpart sts idx) Ht) as B.
+    pose proof (code_solve_satisfies_the_bellman_equation m p n dch cch Hperm Hnd Hnds Hvalid Hnames t (dpart sts idx) (cpart sts idx) Ht) as B.
     specialize (B ltac:(intros; lia) (fun _ => Hlast t E) Hds Hcs). unfold Vc. eapply veq_trans; [exact B|]. clear B.
     replace (t =? n - 1) with true by (symmetry; apply Nat.eqb_eq; lia).
     replace (S t =? n) with true by (symmetry; apply Nat.eqb_eq; lia).
@@ -196,7 +197,7 @@ Proof.
   - assert (E : S t < n) by lia.
     destruct (parts_in_bounds sts idx Hb) as [Hds Hcs].
     rewrite (spec_entry t idx Ht Hb), vred_veq.
-    pose proof (code_solve_satisfies_the_bellman_equation m p n dch cch Hperm Hnd Hnds Hvalid t (dpart sts idx) (cpart sts idx) Ht) as B.
+    pose proof (code_solve_satisfies_the_bellman_equation m p n dch cch Hperm Hnd Hnds Hvalid Hnames t (dpart sts idx) (cpart sts idx) Ht) as B.
     specialize (B (fun _ ds' dc cs' cc H1 H2 H3 H4 => evaluates_at_indep m p _ _ _ (Heval t E ds' dc cs' cc H1 H2 H3 H4))
                   ltac:(intros; lia) Hds Hcs). unfold Vc. eapply veq_trans; [exact B|]. clear B.
     replace (t =? n - 1) with false by (symmetry; apply Nat.eqb_neq; lia).
@@ -213,6 +214,7 @@ End SolveIsSpec.
 (* the statement for all periods at once *)
 Theorem lcm_solve_is_the_specifications_solve (m : model) (p : params) (dch cch : list (string * grid)) :
   Permutation (dch ++ cch) (choices m) -> NoDup (map fst (choices m)) -> NoDup (map fst (states m)) -> grids_valid (states m) ->
+  NoDup (map fst (dstates (states m) ++ dch ++ cstates (states m) ++ cch)) ->
   (forall t, S t < n_periods m -> forall ds dc cs cc,
      in_bounds (sizes (dstates (states m))) ds -> in_bounds (sizes dch) dc -> in_bounds (sizes (cstates (states m))) cs -> in_bounds (sizes cch) cc ->
      evaluates_at m p (fun _ => 0%Q) (spec_env t (dstates (states m)) dch (cstates (states m)) cch ds dc cs cc)) ->
@@ -225,8 +227,8 @@ Theorem lcm_solve_is_the_specifications_solve (m : model) (p : params) (dch cch 
   veq (get VUndef (nth t (code_solve m p (n_periods m) dch cch) (scalar VUndef)) (dpart (states m) idx ++ cpart (states m) idx))
       (get VUndef (nth t (solve_spec m p) (scalar VUndef)) idx).
 Proof.
-  intros H1 H2 H3 H4 H5 H6 H7 t idx Ht Hb.
-  apply (code_solve_is_solve_spec m p dch cch H1 H2 H3 H4 H5 H6 H7 (n_periods m - 1 - t) t idx); [lia|exact Ht|exact Hb].
+  intros H1 H2 H3 H4 Hn H5 H6 H7 t idx Ht Hb.
+  apply (code_solve_is_solve_spec m p dch cch H1 H2 H3 H4 Hn H5 H6 H7 (n_periods m - 1 - t) t idx); [lia|exact Ht|exact Hb].
 Qed.
 
 (* ---- decision procedures for the hypotheses (for concrete models) ---------------------------------------------- *)
